@@ -364,17 +364,17 @@ func (r *Report) writeEvidence(verifDir string, spec *PropSpec, wall time.Durati
 		"seed":        seed,
 		"level":       "other",
 		"coverage": map[string]any{
-			"explanation": spec.Explanation,
-			"obligations": len(r.Obls),
-			"discharged":  nd,
-			"undecided":   len(out.Undecided),
-			"violated":    len(out.Violations),
-			"known_findings": knownIDs,
-			"checker_cmd": fmt.Sprintf("bin/colvet -property %s -tier %s", r.Property, r.Tier),
-			"rules":       r.Rules,
-			"rule_floors": floors,
-			"samples":     samples,
-			"not_decided": spec.NotDecided,
+			"explanation":        spec.Explanation,
+			"obligations":        len(r.Obls),
+			"discharged":         nd,
+			"undecided":          len(out.Undecided),
+			"violated":           len(out.Violations),
+			"known_findings":     knownIDs,
+			"checker_cmd":        fmt.Sprintf("bin/colvet -property %s -tier %s", r.Property, r.Tier),
+			"rules":              r.Rules,
+			"rule_floors":        floors,
+			"samples":            samples,
+			"not_decided":        spec.NotDecided,
 			"functions_analysed": r.P.NFuncs,
 			"files_analysed":     r.P.NFiles,
 			"packages":           []string{ModPath, CommitPath},
